@@ -297,7 +297,44 @@ class _R(object):
         return self._c.require(*a, **k)
 
 
+def rule_forward(ctx):
+    """FORWARD: the blocking entry points are thin wrappers that hand their own parameters to the
+    generator versions; blocking and step-wise use must therefore mean the same call.  Wherever a method
+    of TLSConnection / TLSRecordLayer passes three or more of its own parameters, by position, to another
+    method of the same class family that has parameters of those names, each name stands at the position
+    of the callee's parameter of that name (a swapped pair hands `checker` in as `reqCAs`)."""
+    R = "C14.FORWARD"
+    fams = [f for f in ctx.index.all_functions() if f.cls is not None and f.cls.name in ("TLSConnection", "TLSRecordLayer")]
+    by_name = {}
+    for f in fams:
+        by_name.setdefault(f.name, []).append(f)
+    n = 0
+    for f in fams:
+        own = {a.arg for a in f.node.args.args}
+        for c in calls_in(f.node):
+            nm = call_name(c)
+            if not (isinstance(c.func, ast.Attribute) and isinstance(c.func.value, ast.Name) and c.func.value.id == "self"
+                    and nm in by_name and len(by_name[nm]) == 1):
+                continue
+            callee = [a.arg for a in by_name[nm][0].node.args.args][1:]
+            passed = [(i, a.id) for i, a in enumerate(c.args) if isinstance(a, ast.Name) and a.id in own and a.id in callee]
+            if len(passed) < 3:
+                continue
+            n += 1
+            wrong = [(i, a, callee.index(a)) for i, a in passed if i < len(callee) and callee[i] != a]
+            ctx.check(R, not wrong, f.qname, c,
+                      "%s passes its parameter `%s` to %s at position %d, where %s expects `%s` (its `%s` is at "
+                      "position %d): the two ways of making the same call no longer mean the same" % (
+                          f.short, wrong[0][1] if wrong else "", nm, (wrong[0][0] + 1) if wrong else 0, nm,
+                          callee[wrong[0][0]] if wrong else "", wrong[0][1] if wrong else "",
+                          (wrong[0][2] + 1) if wrong else 0), f.loc(c),
+                      what="%s forwards its parameters to %s in the callee's order" % (f.short, nm))
+    if n < 5:
+        raise AnalysisError("%s: only %d forwarding calls found" % (R, n))
+
+
 RULES = [
+    ("C14.FORWARD", "quick", rule_forward),
     ("C14.CONSUME", "quick", rule_consume_c14),
     ("C14.WOULDBLOCK", "quick", rule_wouldblock),
     ("C14.DRAIN", "quick", rule_drain),
